@@ -32,6 +32,8 @@ func dispatch(kind string, args []*Sexp) (out *Sexp) {
 	switch kind {
 	case "v1prog":
 		return runC11(kind, args)
+	case "v1mut":
+		return runV1Mut(args)
 	}
 	switch kind {
 	case "decmut", "decraw":
@@ -48,6 +50,12 @@ func dispatch(kind string, args []*Sexp) (out *Sexp) {
 		return runSymtab(args)
 	case "disprog":
 		return runDisProg(args)
+	}
+	switch kind {
+	case "foldbin", "foldun", "litfalsy":
+		return runFold(kind, args)
+	case "optprog":
+		return runOptProg(args)
 	}
 	return L(A("unknown-kind"), A(kind))
 }
